@@ -102,3 +102,41 @@ def pair_item(arg):
                           f'{len(alone)} vs {len(after)} responses',
                           {'kind': 'history-pair', 'a': list(alphabet[a]), 'b': list(sb)})
     return acc
+
+
+# ---------------------------------------------------------------------------
+# the same oracle for library calls: runner(entry) -> picklable digest of what the call returned
+
+def _resolve(path):
+    import importlib
+    mod, fn = path.split(':')
+    return getattr(importlib.import_module(mod), fn)
+
+
+def _calls(arg):
+    runner, entries = arg
+    fn = _resolve(runner)
+    return [fn(e) for e in entries]
+
+
+def call_pair_item(arg):
+    """arg = (prop id, a index, alphabet [(label, ...)], 'module:function' runner). The worker itself never calls the
+    library; every pair runs in a process forked for it."""
+    prop, a, alphabet, runner = arg
+    acc = core.Acc()
+    ea = alphabet[a]
+    for b, eb in enumerate(alphabet):
+        if b == a:
+            continue
+        alone = run_forked(_calls, (runner, [eb]))[0]
+        after = run_forked(_calls, (runner, [ea, eb]))[1]
+        acc.count('evaluations', 3)
+        acc.count('transitions', 2)
+        acc.state(('call-history', ea[0], eb[0]))
+        acc.nontriv(('call-history', ea[0], eb[0]))
+        if alone != after:
+            acc.violation(f'{prop}|history|result-depends-on-earlier-call|{eb[0].split("|")[0]}',
+                          f'{eb[0]} returns {str(after)[:200]} after {ea[0]} was called in the same process, but '
+                          f'{str(alone)[:200]} in a fresh process',
+                          {'kind': 'call-history-pair', 'a': list(ea), 'b': list(eb), 'runner': runner})
+    return acc
